@@ -305,6 +305,22 @@ func sameValue(a, b ssa.Value) bool {
 		if ok3 && ok4 && fa.Field == fb.Field {
 			return sameValue(fa.X, fb.X)
 		}
+		// two loads of the same local variable cell in one block with no store in between
+		if al, ok := ua.X.(*ssa.Alloc); ok && ub.X == ssa.Value(al) && ua.Block() == ub.Block() {
+			lo, hi := instrIndex(ua), instrIndex(ub)
+			if lo > hi {
+				lo, hi = hi, lo
+			}
+			for _, in := range ua.Block().Instrs[lo:hi] {
+				if st, ok := in.(*ssa.Store); ok && st.Addr == ssa.Value(al) {
+					return false
+				}
+				if _, isCall := in.(*ssa.Call); isCall && al.Heap {
+					return false
+				}
+			}
+			return true
+		}
 	}
 	return false
 }
